@@ -727,6 +727,12 @@ CHAINS = {
     'fil_fmap': ('.filter(cl.fil2()).filter_map(cl.fmap())', '.filter(c2.fil2()).filter_map(c2.fmap())', 'ParFilter::filter_map'),
     'flat_map': ('.flat_map(cl.flat()).map(cl.map2())', '.flat_map(c2.flat()).map(c2.map2())', 'ParFlatMap::map'),
     'flat_fil_fil': ('.flat_map(cl.flat()).filter(cl.fil()).filter(cl.fil2())', '.flat_map(c2.flat()).filter(c2.fil()).filter(c2.fil2())', 'ParFlatMapFilter::filter'),
+    # the remaining lazy composition sites of src/par/*.rs (the eight eager ones are the k_order_* / k_lazy_* family)
+    'map_flat': ('.map(cl.map2()).flat_map(cl.flat())', '.map(c2.map2()).flat_map(c2.flat())', 'ParMap::flat_map'),
+    'map_fil_fmap': ('.map(cl.map()).filter(cl.fil()).filter_map(cl.fmap())', '.map(c2.map()).filter(c2.fil()).filter_map(c2.fmap())', 'ParMapFilter::filter_map'),
+    'fmap_fmap': ('.filter_map(cl.fmap()).filter_map(cl.fmap())', '.filter_map(c2.fmap()).filter_map(c2.fmap())', 'ParFilterMap::filter_map'),
+    'fmap_fil_fmap': ('.filter_map(cl.fmap()).filter(cl.fil()).filter_map(cl.fmap())', '.filter_map(c2.fmap()).filter(c2.fil()).filter_map(c2.fmap())', 'ParFilterMapFilter::filter_map'),
+    'flat_flat': ('.flat_map(cl.flat()).flat_map(cl.flat())', '.flat_map(c2.flat()).flat_map(c2.flat())', 'ParFlatMap::flat_map'),
 }
 
 # terminal name -> (par expr template using {P}, std expr using {S}, comparison kind, props)
@@ -914,7 +920,19 @@ QUICK_API = {
     ('map_fil_fil', 'count'), ('fil_fil', 'count'), ('fmap_fil_fil', 'count'), ('flat_fil_fil', 'count'), ('fil_map', 'count'), ('map_fil_map', 'count'),
 }
 # sequential-mode only additions (cheap there, intractable with two workers + merge contract)
-QUICK_API_SEQ = {('map', 'max_by_key'), ('fil', 'max_by'), ('flat', 'reduce'), ('flat_fil_fil', 'count'), ('fmap_fil', 'count'), ('fmap_fil', 'max')}
+QUICK_API_SEQ = {('map', 'max_by_key'), ('fil', 'max_by'), ('flat', 'reduce'), ('flat_fil_fil', 'count'), ('fmap_fil', 'count'), ('fmap_fil', 'max'),
+                 # every lazy composition site of src/par/*.rs at least once in the quick tier (sequential mode: values through count,
+                 # closure-call multiset and call sequence against the std chain)
+                 ('map_map', 'count'), ('fmap_map', 'count'), ('fmap_fil_map', 'count'), ('map_fmap', 'count'), ('fil_fmap', 'count'), ('flat_map', 'count'),
+                 ('map_flat', 'count'), ('map_fil_fmap', 'count'), ('fmap_fmap', 'count'), ('fmap_fil_fmap', 'count'), ('flat_flat', 'count'),
+                 ('empty', 'collect')}
+# composition sites: in sequential mode every composed (three-step) chain is observed through count (number of survivors, closure-call
+# multiset and call sequence) and through reduce with a non-commutative operator (values and their order)
+QUICK_API_SEQ |= {(c, t) for c in CHAINS if c not in ('empty', 'map', 'fil', 'map_fil', 'fmap', 'fmap_fil', 'flat', 'flat_fil') for t in ('count', 'reduce')}
+# ... except reduce over the flat_map compositions (300-550 s each): thorough only
+QUICK_API_SEQ -= {('flat_map', 'reduce'), ('flat_fil_fil', 'reduce'), ('flat_flat', 'reduce')}
+# the pipeline properties whose statements quantify over every chain: a wrong composition breaks each of them
+PIPELINE_PROPS = ['C01', 'C02', 'C03', 'C04', 'C07']
 # sequential collect_vec of map+filter style chains: 150-260 s when it works, and one run of the same harness grew to
 # 50 GB: optional (thorough) only
 SEQ_HEAVY = {('map_fil', 'collect_vec'), ('fmap', 'collect_vec'), ('fil_map', 'collect_vec'), ('map_fil_fil', 'collect_vec'), ('map_fil_map', 'collect_vec')}
@@ -923,6 +941,8 @@ INTRACTABLE = {
     ('par2', 'fil_map', 'collect_vec'), ('par2', 'map_fil_fil', 'collect_vec'), ('par2', 'map_fil_map', 'collect_vec'),
     ('par2', 'fmap_fil', 'collect'), ('seq', 'fmap_fil', 'collect'), ('seq', 'map', 'collect_x'), ('seq', 'map_fil', 'collect_x'),
     ('par2', 'flat_fil', 'collect_vec'), ('seq', 'flat_fil', 'collect_vec'),
+    ('seq', 'fil', 'collect'),  # > 16 GB (SplitVec fragments + filter)
+    ('seq', 'flat_flat', 'reduce'),  # > 16 GB
     ('seq', 'map', 'into_split_full'), ('seq', 'map_fil', 'into_split_full'), ('seq', 'empty', 'into_split_full'),  # 57 GB
     ('par2', 'map', 'into_split_full'), ('par2', 'empty', 'into_split_full'),  # > 16 GB
 }
@@ -951,7 +971,9 @@ def gen_api():
                     if (mode, chain, term) in INTRACTABLE or (mode == 'seq' and term == 'collect_x'):
                         continue  # (sequential collect_x converts through two SplitVec growth strategies: > 16 GB)
                     # composed-closure chains: collect_vec (order) and count (cheapest must-visit terminal, for the call logs)
-                    if not (term in ('collect_vec', 'count') or chain in BASE_CHAINS):
+                    # plus, for the composed chains: collect_x with two workers (C07), find and reduce in sequential mode (C02, C03/C09)
+                    if not (term in ('collect_vec', 'count') or chain in BASE_CHAINS
+                            or (term == 'collect_x' and mode == 'par2') or (term in ('find', 'reduce') and mode == 'seq')):
                         continue
                     if term.startswith('into_'):
                         tier = 'quick' if (chain, term) in (('map', 'into_vec'), ('map_fil', 'into_vec'), ('map', 'into_split_full')) else 'thorough'
@@ -962,6 +984,12 @@ def gen_api():
                         t2 = 'thorough'
                     name = 'k_api_%s_%s_%s_n%dc%d_o%s' % (mode, chain, term, n, c, ''.join(str(x) for x in owner))
                     pr = tprops[0]
+                    if mode == 'seq' and term == 'collect':
+                        pr = 'C01,C07'  # sequential collect_x is `SplitVec::from(self.collect())`: the ordered collect carries it
+                    composition_site = mode == 'seq' and chain not in BASE_CHAINS and term in ('count', 'reduce')
+                    if composition_site:
+                        # the chain differs from its base chain only in the closure composed by the transformation site `typ`
+                        pr = ','.join(sorted(set(PIPELINE_PROPS + [pr])))
                     par = mode.startswith('par2')
                     stubs = STUBS_ALL if par else FORBID_ALL
                     if par and term in ('collect_vec', 'collect') or term.startswith('into_'):
@@ -1013,6 +1041,10 @@ def gen_api():
                     body.append('}\n')
                     out.append('\n'.join(body))
                     props = list(tprops) + ['C05']
+                    if mode == 'seq' and term == 'collect':
+                        props += ['C07']
+                    if composition_site:
+                        props = sorted(set(props + PIPELINE_PROPS))
                     if not par:
                         props += ['C09', 'C08']
                     else:
